@@ -129,6 +129,10 @@ fn main() {
                     let (tests, distinct) = drivers::stats::run(&mut tr, seed, get("rounds", 10) as usize, get("threads", 3) as usize);
                     extra = format!(",\"tests\":{},\"distinct\":{}", tests, distinct);
                 }
+                "wfull" => {
+                    let (tests, distinct) = drivers::wstates::wfull(&mut tr, seed, get("rounds", 10) as usize);
+                    extra = format!(",\"tests\":{},\"distinct\":{}", tests, distinct);
+                }
                 "wstates" => {
                     let (tests, distinct) = drivers::wstates::run(
                         &mut tr,
